@@ -368,6 +368,19 @@ def check_struct(ctx, rule):
     ctx.ob(rule, rt, "a stream without the TZif magic is rejected with ValueError", len(mg) == 1 and src(mg[0].exc).startswith("ValueError") and "fileobj.read(4).decode() != 'TZif'" in src(rt.node), construct="magic check")
 
 
+def _canon_value(text):
+    """Value texts are compared without blanks / parentheses; boolean formulas by their canonical cases (so `i < n` and
+    `n > i` agree)."""
+    try:
+        e = ast.parse(text, mode="eval").body
+    except SyntaxError:
+        return norm(text)
+    if isinstance(e, (ast.BoolOp, ast.Compare)) or (isinstance(e, ast.UnaryOp) and isinstance(e.op, ast.Not)):
+        from .summ import dnf
+        return "bool:" + " | ".join(sorted(" & ".join(sorted("%s%s" % ("" if t else "not ", a) for a, t in case)) for case in dnf(e, True)))
+    return norm(text)
+
+
 def check_ttinfo(ctx, rule):
     prog = ctx.prog
     rt = prog.func("tz.tz.tzfile._read_tzfile", rule)
@@ -378,14 +391,14 @@ def check_ttinfo(ctx, rule):
     for n in cfg.live_nodes():
         if n.kind == "stmt" and isinstance(n.ast, ast.Assign) and isinstance(n.ast.targets[0], ast.Attribute) and src(n.ast.targets[0].value) == "tti":
             vals = value_set(ctx, rt, n, n.ast.value, stop=lambda v: any(isinstance(y, ast.Call) and src(y.func) in ("struct.unpack", "fileobj.read") for y in ast.walk(v)))
-            got.setdefault("tti." + n.ast.targets[0].attr, set()).update(norm(v) for v in vals)
+            got.setdefault("tti." + n.ast.targets[0].attr, set()).update(_canon_value(v) for v in vals)
             for v in vals:
                 for m_ in re.finditer(r"\b(\w+)\[i\]\[([012])\]", v):
                     recs.add(m_.group(1))
     R = sorted(recs)[0] if len(recs) == 1 else "ttinfo"
     want = {"tti.offset": "_get_supported_offset%s[i][0]" % R, "tti.delta": "datetime.timedeltaseconds=_get_supported_offset%s[i][0]" % R, "tti.isdst": "%s[i][1]" % R,
-            "tti.abbr": norm("abbr[%s[i][2]:abbr.find('\\x00', %s[i][2])]" % (R, R)), "tti.isstd": norm("ttisstdcnt > i and isstd[i] != 0"),
-            "tti.isgmt": norm("ttisgmtcnt > i and isgmt[i] != 0")}
+            "tti.abbr": norm("abbr[%s[i][2]:abbr.find('\\x00', %s[i][2])]" % (R, R)), "tti.isstd": _canon_value("ttisstdcnt > i and isstd[i] != 0"),
+            "tti.isgmt": _canon_value("ttisgmtcnt > i and isgmt[i] != 0")}
     for k, w in want.items():
         ok = got.get(k) == {w}
         ctx.ob(rule, rt, "%s is taken from the record as the format prescribes (record = (utc offset, isdst, abbreviation index))" % k, ok, construct="%s = ..." % k,
